@@ -78,7 +78,7 @@ type c03Case struct {
 
 // c03Faults: which (scenario, client, number of fault positions) get the interleaving x single-fault product.
 func c03Faults(thorough bool) map[int]map[string]int {
-	m := map[int]map[string]int{0: {"r": 4}} // S1: the read-only opener
+	m := map[int]map[string]int{0: {"r": 4, "w": 8}} // S1: the read-only opener and the committing writer
 	if thorough {
 		m[0] = map[string]int{"r": 4, "w": 8}
 		m[1] = map[string]int{"o": 6} // S2: the read-write opener
